@@ -19,6 +19,7 @@ import (
 
 type walkCalls struct {
 	rec, deleg, helper, fcall map[*ssa.Call]bool
+	coversNode                map[*ssa.Call]bool // helper calls that walk everything below the node they are given
 	loops                     []*idxLoop
 	bad                       []string
 	badAt                     []ssa.Instruction
@@ -34,9 +35,38 @@ func typeAssertOf(v ssa.Value, node ssa.Value) (*ssa.TypeAssert, bool) {
 	return ta, ok && ta.X == node
 }
 
-// classifyWalkCalls sorts the calls of g. node may be nil (helper): then delegation and callback calls are violations.
-func (c *Ctx) classifyWalkCalls(walk, g *ssa.Function, node, cb ssa.Value, isChildren func(ssa.Value) bool, depth int) *walkCalls {
-	w := &walkCalls{rec: map[*ssa.Call]bool{}, deleg: map[*ssa.Call]bool{}, helper: map[*ssa.Call]bool{}, fcall: map[*ssa.Call]bool{}}
+func ifaceHasMethod(t types.Type, name string) bool {
+	it, ok := t.Underlying().(*types.Interface)
+	if !ok {
+		return false
+	}
+	for i := 0; i < it.NumMethods(); i++ {
+		if it.Method(i).Name() == name {
+			return true
+		}
+	}
+	return false
+}
+
+// childrenOf: a predicate recognising node.(NonTerminalNode).Children() for the given node value.
+func childrenOf(node ssa.Value) func(ssa.Value) bool {
+	return func(x ssa.Value) bool {
+		ch, ok := x.(*ssa.Call)
+		if !ok || !ch.Call.IsInvoke() || ch.Call.Method.Name() != "Children" {
+			return false
+		}
+		if ch.Call.Value == node {
+			return true
+		}
+		_, isTA := typeAssertOf(ch.Call.Value, node)
+		return isTA
+	}
+}
+
+// classifyWalkCalls sorts the calls of g. node is the value whose subtree g walks (nil when g is only handed a list
+// of children); in helper mode the callback must not be invoked.
+func (c *Ctx) classifyWalkCalls(walk, g *ssa.Function, node, cb ssa.Value, isChildren func(ssa.Value) bool, depth int, helperMode bool) *walkCalls {
+	w := &walkCalls{rec: map[*ssa.Call]bool{}, deleg: map[*ssa.Call]bool{}, helper: map[*ssa.Call]bool{}, fcall: map[*ssa.Call]bool{}, coversNode: map[*ssa.Call]bool{}}
 	bad := func(at ssa.Instruction, s string) { w.bad = append(w.bad, s); w.badAt = append(w.badAt, at) }
 	for _, call := range ssax.Calls(g) {
 		cl, ok := call.(*ssa.Call)
@@ -48,7 +78,7 @@ func (c *Ctx) classifyWalkCalls(walk, g *ssa.Function, node, cb ssa.Value, isChi
 		}
 		switch {
 		case cl.Call.Value == cb && !cl.Call.IsInvoke():
-			if node == nil {
+			if helperMode {
 				bad(cl, "the helper invokes the callback directly")
 			} else if len(cl.Call.Args) != 1 || cl.Call.Args[0] != node {
 				bad(cl, "the callback is invoked on something else than Walk's own node")
@@ -62,7 +92,7 @@ func (c *Ctx) classifyWalkCalls(walk, g *ssa.Function, node, cb ssa.Value, isChi
 			u, ok := cl.Call.Args[0].(*ssa.UnOp)
 			var loop *idxLoop
 			if ok && u.Op == token.MUL {
-				if ia, ok := u.X.(*ssa.IndexAddr); ok && isChildren(ia.X) {
+				if ia, ok := u.X.(*ssa.IndexAddr); ok && isChildren != nil && isChildren(ia.X) {
 					loop = indexLoopOf(ia.Index, ia.X)
 				}
 			}
@@ -84,43 +114,45 @@ func (c *Ctx) classifyWalkCalls(walk, g *ssa.Function, node, cb ssa.Value, isChi
 			w.deleg[cl] = true
 		default:
 			h := cl.Call.StaticCallee()
-			if h == nil || h == g || !c.P.InLib(h) || len(h.Blocks) == 0 || depth > 0 {
+			if h == nil || h == g || cl.Call.IsInvoke() || !c.P.InLib(h) || len(h.Blocks) == 0 || depth > 1 {
 				continue
 			}
-			si, fi := -1, -1
+			si, fi, ni, ti := -1, -1, -1, -1
 			for i, a := range cl.Call.Args {
-				if isChildren(a) {
+				switch {
+				case isChildren != nil && isChildren(a):
 					si = i
-				}
-				if a == cb {
+				case a == cb:
 					fi = i
-				}
-			}
-			// the helper may also be handed the node itself (walkChildren(nonTerminal, f))
-			ni := -1
-			if node != nil && si < 0 {
-				for i, a := range cl.Call.Args {
+				case node != nil && a == node:
+					ni = i
+				case node != nil:
 					if _, isTA := typeAssertOf(a, node); isTA {
-						ni = i
+						ti = i
 					}
 				}
 			}
-			if fi < 0 || (si < 0 && ni < 0) || fi >= len(h.Params) {
+			if fi < 0 || fi >= len(h.Params) || (si < 0 && ni < 0 && ti < 0) {
 				continue
 			}
-			var hChildren func(ssa.Value) bool
-			if si >= 0 {
+			var why string
+			switch {
+			case si >= 0:
 				hs := h.Params[si]
-				hChildren = func(v ssa.Value) bool { return v == ssa.Value(hs) }
-			} else {
-				hn := h.Params[ni]
-				hChildren = func(v ssa.Value) bool {
-					ch, ok := v.(*ssa.Call)
-					return ok && ch.Call.IsInvoke() && ch.Call.Method.Name() == "Children" && ch.Call.Value == ssa.Value(hn)
+				why = c.walkHelperOK(walk, h, h.Params[fi], nil, func(v ssa.Value) bool { return v == ssa.Value(hs) }, depth+1)
+			case ni >= 0:
+				hn := ssa.Value(h.Params[ni])
+				why = c.walkHelperOK(walk, h, h.Params[fi], hn, childrenOf(hn), depth+1)
+				if why == "" {
+					w.coversNode[cl] = true
 				}
+			default:
+				// handed the node already asserted to be a NonTerminalNode: walks its children
+				hn := ssa.Value(h.Params[ti])
+				why = c.walkHelperOK(walk, h, h.Params[fi], nil, childrenOf(hn), depth+1)
 			}
-			if why := c.walkHelperOK(walk, h, h.Params[fi], hChildren); why != "" {
-				bad(cl, "the helper "+c.name(h)+" walking the children: "+why)
+			if why != "" {
+				bad(cl, "the helper "+c.name(h)+" walking below the node: "+why)
 				continue
 			}
 			w.helper[cl] = true
@@ -137,46 +169,90 @@ func isWalkNote(n note) (*ssa.Call, bool) {
 	return cl, ok
 }
 
-// walkHelperOK: h(children..., cb) returns true at once when a Walk(child, cb) does, false after all children.
-func (c *Ctx) walkHelperOK(walk, h *ssa.Function, cb ssa.Value, isChildren func(ssa.Value) bool) string {
+func (w *walkCalls) isWalk(cl *ssa.Call) bool { return w.rec[cl] || w.deleg[cl] || w.helper[cl] }
+
+func (w *walkCalls) want(in ssa.Instruction) bool {
+	if _, isR := in.(*ssa.Return); isR {
+		return true
+	}
+	cl, isC := in.(*ssa.Call)
+	return isC && (w.isWalk(cl) || w.fcall[cl])
+}
+
+// assertionsOn: which interfaces the path has established for node.
+func assertionsOn(p *pathState, node ssa.Value) (isWalkable, isNonTerminal bool) {
+	for _, ev := range p.events {
+		e, ok := ev.cond.(*ssa.Extract)
+		if !ok || e.Index != 1 {
+			continue
+		}
+		ta, ok := e.Tuple.(*ssa.TypeAssert)
+		if !ok || ta.X != node || !ev.truth {
+			continue
+		}
+		if ifaceHasMethod(ta.AssertedType, "Walk") {
+			isWalkable = true
+		} else if ifaceHasMethod(ta.AssertedType, "Children") {
+			isNonTerminal = true
+		}
+	}
+	return
+}
+
+// walkHelperOK: h walks below a node (node != nil: Walkable delegation or all children) or over a list of children
+// (node == nil), returning true at once when a walk below does and false after everything was walked; it never
+// invokes the callback itself.
+func (c *Ctx) walkHelperOK(walk, h *ssa.Function, cb ssa.Value, node ssa.Value, isChildren func(ssa.Value) bool, depth int) string {
 	if res := h.Signature.Results(); res.Len() != 1 {
 		return "does not return one bool"
 	}
-	w := c.classifyWalkCalls(walk, h, nil, cb, isChildren, 1)
+	w := c.classifyWalkCalls(walk, h, node, cb, isChildren, depth, true)
 	if len(w.bad) > 0 {
 		return w.bad[0]
 	}
-	if len(w.rec) == 0 {
+	if len(w.rec)+len(w.helper) == 0 {
 		return "no recursive Walk(child, f) found"
 	}
 	why := ""
-	ok := walkPaths(h, func(in ssa.Instruction) bool {
-		if _, isR := in.(*ssa.Return); isR {
-			return true
-		}
-		cl, isC := in.(*ssa.Call)
-		return isC && w.rec[cl]
-	}, func(p *pathState, in ssa.Instruction) {
+	ok := walkPaths(h, w.want, func(p *pathState, in ssa.Instruction) {
 		r, isR := in.(*ssa.Return)
 		if !isR || why != "" {
 			return
 		}
 		abortAt, exhausted, untested := w.scan(p)
 		val, known := boolOnPath(p, r.Results[0])
+		isWalkable, isNonTerminal := false, false
+		if node != nil {
+			isWalkable, isNonTerminal = assertionsOn(p, node)
+		}
+		delegated := false
+		for _, n := range p.notes {
+			if cl, ok := isWalkNote(n); ok && w.deleg[cl] {
+				delegated = true
+			}
+		}
+		if isWalkable && !delegated {
+			why = "a path on which the node is Walkable does not delegate to its Walk(f)"
+			return
+		}
 		switch {
 		case untested != nil:
-			why = "the result of the walk at " + c.P.InstrPos(untested) + " is ignored"
+			// handing the walk's own result back is the same as testing it, if nothing else follows
+			if p.resolve(r.Results[0]) != ssa.Value(untested) || w.lastWalk(p) != untested {
+				why = "the result of the walk at " + c.P.InstrPos(untested) + " is ignored"
+			}
 		case abortAt >= 0:
 			if w.callsAfter(p, abortAt) {
-				why = "goes on walking after a child's walk returned true"
+				why = "goes on walking after a walk below returned true"
 			} else if !known || !val {
-				why = "does not return true when a child's walk returned true"
+				why = "does not return true when a walk below returned true"
 			}
 		default:
-			if !exhausted {
+			switch {
+			case node == nil && !exhausted, node != nil && isNonTerminal && !isWalkable && !exhausted:
 				why = "returns at " + c.P.InstrPos(r) + " before all children were walked"
-			} else if !known || val {
-				why = "does not return false after all children were walked without abort"
+			case !known || val:
+				why = "does not return false after everything below was walked without abort"
 			}
 		}
 	})
@@ -186,23 +262,29 @@ func (c *Ctx) walkHelperOK(walk, h *ssa.Function, cb ssa.Value, isChildren func(
 	return why
 }
 
+func (w *walkCalls) lastWalk(p *pathState) *ssa.Call {
+	var last *ssa.Call
+	for _, n := range p.notes {
+		if cl, ok := isWalkNote(n); ok && (w.isWalk(cl) || w.fcall[cl]) {
+			last = cl
+		}
+	}
+	return last
+}
+
 // scan: index in p.notes of the first abort (a walk whose result was tested and came out true), whether a children
 // loop was exhausted (or a helper returned false), and a walk call whose result is never tested on this path.
 func (w *walkCalls) scan(p *pathState) (abortAt int, exhausted bool, untested *ssa.Call) {
 	abortAt = -1
-	isWalk := func(v ssa.Value) bool {
-		cl, ok := v.(*ssa.Call)
-		return ok && (w.rec[cl] || w.deleg[cl] || w.helper[cl])
-	}
-	pending := map[*ssa.Call]bool{}
+	pending := map[*ssa.Call]int{}
 	for i, n := range p.notes {
-		if cl, ok := isWalkNote(n); ok && isWalk(cl) {
-			pending[cl] = true
+		if cl, ok := isWalkNote(n); ok && w.isWalk(cl) {
+			pending[cl] = i
 		}
 		if n.ev == nil {
 			continue
 		}
-		if cl, ok := n.ev.cond.(*ssa.Call); ok && isWalk(cl) {
+		if cl, ok := n.ev.cond.(*ssa.Call); ok && w.isWalk(cl) {
 			delete(pending, cl)
 			if n.ev.truth && abortAt < 0 {
 				abortAt = i
@@ -217,15 +299,18 @@ func (w *walkCalls) scan(p *pathState) (abortAt int, exhausted bool, untested *s
 			}
 		}
 	}
-	for cl := range pending {
-		untested = cl
+	best := -1
+	for cl, i := range pending {
+		if i > best {
+			best, untested = i, cl
+		}
 	}
 	return
 }
 
 func (w *walkCalls) callsAfter(p *pathState, idx int) bool {
 	for _, n := range p.notes[idx+1:] {
-		if cl, ok := isWalkNote(n); ok && (w.rec[cl] || w.deleg[cl] || w.helper[cl] || w.fcall[cl]) {
+		if cl, ok := isWalkNote(n); ok && (w.isWalk(cl) || w.fcall[cl]) {
 			return true
 		}
 	}
@@ -235,15 +320,7 @@ func (w *walkCalls) callsAfter(p *pathState, idx int) bool {
 func (c *Ctx) walkByPaths(rule string, fn *ssa.Function) {
 	node, f := ssa.Value(fn.Params[0]), ssa.Value(fn.Params[1])
 	v := func(key, pos, msg string) { c.R.Violation(rule, "parsley.Walk "+key, "parsley.Walk", pos, msg) }
-	isChildren := func(x ssa.Value) bool {
-		ch, ok := x.(*ssa.Call)
-		if !ok || !ch.Call.IsInvoke() || ch.Call.Method.Name() != "Children" {
-			return false
-		}
-		_, isTA := typeAssertOf(ch.Call.Value, node)
-		return isTA
-	}
-	w := c.classifyWalkCalls(fn, fn, node, f, isChildren, 0)
+	w := c.classifyWalkCalls(fn, fn, node, f, childrenOf(node), 0, false)
 	for i, b := range w.bad {
 		v("call", c.P.InstrPos(w.badAt[i]), b)
 	}
@@ -258,22 +335,9 @@ func (c *Ctx) walkByPaths(rule string, fn *ssa.Function) {
 		v("no recursion", c.P.Pos(fn.Pos()), "no recursive Walk(child, f) over the children of a NonTerminalNode found: descendants are not visited (calling f(child) instead visits one level only)")
 		return
 	}
-	if len(w.deleg) == 0 {
+	if len(w.deleg) == 0 && len(w.coversNode) == 0 {
 		v("no delegation", c.P.Pos(fn.Pos()), "no delegation to Walkable.Walk found")
 		return
-	}
-	// which interface does an assertion test?
-	hasMethod := func(t types.Type, name string) bool {
-		it, ok := t.Underlying().(*types.Interface)
-		if !ok {
-			return false
-		}
-		for i := 0; i < it.NumMethods(); i++ {
-			if it.Method(i).Name() == name {
-				return true
-			}
-		}
-		return false
 	}
 	seen := map[string]bool{}
 	report := func(key, pos, msg string) {
@@ -283,13 +347,7 @@ func (c *Ctx) walkByPaths(rule string, fn *ssa.Function) {
 		}
 	}
 	npaths := 0
-	ok := walkPaths(fn, func(in ssa.Instruction) bool {
-		if _, isR := in.(*ssa.Return); isR {
-			return true
-		}
-		cl, isC := in.(*ssa.Call)
-		return isC && (w.rec[cl] || w.deleg[cl] || w.helper[cl] || w.fcall[cl])
-	}, func(p *pathState, in ssa.Instruction) {
+	ok := walkPaths(fn, w.want, func(p *pathState, in ssa.Instruction) {
 		r, isR := in.(*ssa.Return)
 		if !isR {
 			return
@@ -305,23 +363,7 @@ func (c *Ctx) walkByPaths(rule string, fn *ssa.Function) {
 			report("ignored abort", c.P.InstrPos(untested), "the result of this walk is not tested: a callback asking to stop inside the subtree does not stop the traversal")
 			return
 		}
-		// the assertions taken on this path
-		isWalkable, isNonTerminal := false, false
-		for _, ev := range p.events {
-			e, ok := ev.cond.(*ssa.Extract)
-			if !ok || e.Index != 1 {
-				continue
-			}
-			ta, ok := e.Tuple.(*ssa.TypeAssert)
-			if !ok || ta.X != node || !ev.truth {
-				continue
-			}
-			if hasMethod(ta.AssertedType, "Walk") {
-				isWalkable = true
-			} else if hasMethod(ta.AssertedType, "Children") {
-				isNonTerminal = true
-			}
-		}
+		isWalkable, isNonTerminal := assertionsOn(p, node)
 		var fcalls, walks []*ssa.Call
 		lastWalk, firstF := -1, -1
 		for i, n := range p.notes {
@@ -339,13 +381,16 @@ func (c *Ctx) walkByPaths(rule string, fn *ssa.Function) {
 				lastWalk = i
 			}
 		}
-		delegated := false
+		delegated, covered := false, false
 		for _, cl := range walks {
 			if w.deleg[cl] {
 				delegated = true
 			}
+			if w.coversNode[cl] {
+				covered = true
+			}
 		}
-		if isWalkable && !delegated {
+		if isWalkable && !delegated && !covered {
 			report("walkable delegation", pos, "a path on which the node is Walkable does not delegate to node.(Walkable).Walk(f)")
 		}
 		if abortAt >= 0 {
@@ -357,8 +402,11 @@ func (c *Ctx) walkByPaths(rule string, fn *ssa.Function) {
 			}
 			return
 		}
-		if isNonTerminal && !isWalkable && !exhausted {
+		if isNonTerminal && !isWalkable && !exhausted && !covered {
 			report("no recursion", pos, "a path on which the node is a NonTerminalNode reaches the callback without Walk(child, f) over all of its children: descendants are not visited")
+		}
+		if !isWalkable && !isNonTerminal && !covered && len(w.coversNode) > 0 {
+			report("no recursion", pos, "a path reaches the callback without walking below the node")
 		}
 		if len(fcalls) != 1 {
 			report("callback count", pos, fmt.Sprintf("the callback is invoked %d times on a path without abort; exactly one f(node) is expected (each node visited exactly once)", len(fcalls)))
@@ -390,7 +438,8 @@ func (c *Ctx) walkByPaths(rule string, fn *ssa.Function) {
 			c.R.Hold(rule, "parsley.Walk -> Walk(child, f) @"+c.P.InstrPos(cl), "ranges over all of Children(), aborts on true")
 		}
 		for cl := range w.helper {
-			c.R.Hold(rule, "parsley.Walk -> helper @"+c.P.InstrPos(cl), "a helper walks all of Children() and aborts on true")
+			c.R.Hold(rule, "parsley.Walk -> helper @"+c.P.InstrPos(cl), "a helper walks below the node and aborts on true")
+			c.R.Hold(rule, "parsley.Walk -> helper (delegation/children) @"+c.P.InstrPos(cl), "verified in the helper")
 		}
 		for cl := range w.deleg {
 			c.R.Hold(rule, "parsley.Walk -> n.Walk(f) @"+c.P.InstrPos(cl), "Walkable delegation, aborts on true")
